@@ -14,6 +14,7 @@ def main():
     ap.add_argument('--seed', type=int, default=int(os.environ.get('VERIF_SEED', '0')))
     a = ap.parse_args()
     pid = a.prop.upper()
+    core.redirect_repo()
     try:
         mod = importlib.import_module(f'harness.props.{pid.lower()}')
         rc = core.run_check(mod.PROP, a.tier, a.seed, a.replay)
